@@ -130,6 +130,72 @@ pub struct Floats {
     pub o: Option<f32>,
 }
 
+/// A map whose Serialize impl may emit the same key more than once
+/// (what `#[serde(flatten)]` collisions and hand-written multimaps do).
+#[derive(Debug, Clone, PartialEq)]
+pub struct DupMap(pub Vec<(String, i64)>);
+
+impl Serialize for DupMap {
+    fn serialize<S: serde::Serializer>(&self, s: S) -> Result<S::Ok, S::Error> {
+        use serde::ser::SerializeMap;
+        let mut m = s.serialize_map(Some(self.0.len()))?;
+        for (k, v) in &self.0 {
+            m.serialize_entry(k, v)?;
+        }
+        m.end()
+    }
+}
+
+impl<'de> Deserialize<'de> for DupMap {
+    fn deserialize<D: serde::Deserializer<'de>>(d: D) -> Result<Self, D::Error> {
+        let m = BTreeMap::<String, i64>::deserialize(d)?;
+        Ok(DupMap(m.into_iter().collect()))
+    }
+}
+
+#[derive(Serialize, Deserialize, Debug, Clone, PartialEq)]
+pub struct Flat {
+    pub id: i64,
+    #[serde(flatten)]
+    pub extra: BTreeMap<String, serde_json::Value>,
+}
+
+/// Long runs of numbers whose neighbours are equal, nearly equal or the same
+/// value in another type (size and adjacency thresholds).
+fn gen_run_u64(src: &mut Src) -> Vec<u64> {
+    let n = src.size(300);
+    let base = *src.pick(&[0u64, 5, (1 << 53) - 2, 1_700_000_000_000_000_000, u64::MAX - 400, i64::MAX as u64 - 3]);
+    let mut v = vec![];
+    let mut cur = base;
+    for _ in 0..n {
+        match src.below(4) {
+            0 => {}
+            1 => cur = cur.wrapping_add(1),
+            2 => cur = cur.wrapping_add(src.below(3) as u64),
+            _ => cur = base,
+        }
+        v.push(cur);
+    }
+    v
+}
+
+fn gen_run_f64(src: &mut Src) -> Vec<f64> {
+    let n = src.size(300);
+    let mut v = vec![];
+    let mut cur = *src.pick(&[0.0f64, 1.0, 0.71, 1e15, -2.5]);
+    for _ in 0..n {
+        match src.below(5) {
+            0 => {}
+            1 => cur = f64::from_bits(cur.to_bits() ^ 1),
+            2 => cur = -cur,
+            3 => cur += 1.0,
+            _ => cur = cur.trunc(),
+        }
+        v.push(cur);
+    }
+    v
+}
+
 fn gen_char_v(src: &mut Src) -> char {
     crate::gen_doc::gen_char(src)
 }
@@ -338,7 +404,34 @@ fn interesting(it: &str) -> bool {
 }
 
 fn typed(src: &mut Src, st: &mut Stats, _env: &Env) -> CaseResult {
-    let it = match src.below(9) {
+    let it = match src.below(12) {
+        9 => {
+            if src.flip() {
+                check_value("typed", "Vec<u64>", &gen_run_u64(src), st)?
+            } else {
+                check_value("typed", "Vec<f64>", &gen_run_f64(src), st)?
+            }
+        }
+        10 => {
+            // mixed integer / float neighbours through a tuple-of-vectors and a vector of pairs
+            let a = gen_run_u64(src);
+            let pairs: Vec<(u64, f64, i64)> = a.iter().map(|x| (*x, *x as f64, *x as i64)).collect();
+            check_value("typed", "Vec<(u64, f64, i64)>", &pairs, st)?
+        }
+        11 => {
+            if src.flip() {
+                let keys = ["a", "b", "id", "a", "k"];
+                let n = src.below(6);
+                let d = DupMap((0..n).map(|i| (keys[src.below(keys.len())].to_string(), i as i64)).collect());
+                check_value("typed", "DupMap", &d, st)?
+            } else {
+                let mut extra = BTreeMap::new();
+                for _ in 0..src.below(4) {
+                    extra.insert(src.pick(&["id", "x", "y", "é"]).to_string(), json!(gen_string(src)));
+                }
+                check_value("typed", "Flat", &Flat { id: gen_i64(src), extra }, st)?
+            }
+        }
         0 | 1 => check_value("typed", "Named", &gen_named(src, 0), st)?,
         2 | 3 => check_value("typed", "E", &gen_e(src, 0), st)?,
         4 => check_value("typed", "Ints", &gen_ints(src), st)?,
